@@ -482,8 +482,6 @@ def install_world():
         if not on(self):
             return _worig['create_entity'](self, *components, entity_id=entity_id)
         cs = [W.comp(c) for c in components]
-        if len({type(c) for c in components}) != len(components):
-            W.bad('create_entity with two components of one type (outside the specification\'s domain)')
         a1 = -1 if entity_id is None else W.ent(entity_id)
         return _wcall('CreateEntity', a1, cs, '-', self, lambda: _worig['create_entity'](self, *components, entity_id=entity_id),
                       lambda r: ['id', W.ent(r), '-'])
